@@ -38,6 +38,8 @@ def build(t):
         ns = {}
         for fname, ft in t["fields"]:
             ns[fname] = build(ft)
+            if t.get("field_decl") and ft["k"] in ("ref", "union", "struct", "array"):
+                ns[fname] = xo.Field(ns[fname])        # the explicit form of a field declaration
         r = type(t["name"], (xo.Struct,), ns)
     elif kk == "array":
         item = build(t["item"])
